@@ -9,7 +9,6 @@ import (
 
 	"github.com/hashicorp/consul/internal/verifmc/c01"
 	"github.com/hashicorp/consul/internal/verifmc/c02"
-	"github.com/hashicorp/consul/internal/verifmc/c04"
 	"github.com/hashicorp/consul/internal/verifmc/c07"
 	"github.com/hashicorp/consul/internal/verifmc/c08"
 	"github.com/hashicorp/consul/internal/verifmc/c15"
@@ -26,7 +25,6 @@ type checkDef struct {
 var checks = map[string]checkDef{
 	"C01": {"model_checking", c01.Run},
 	"C02": {"model_checking", c02.Run},
-	"C04": {"model_checking", c04.Run},
 	"C07": {"model_checking", c07.Run},
 	"C08": {"exploration", c08.Run},
 	"C15": {"exploration", c15.Run},
